@@ -187,6 +187,25 @@ def gen_cases(tier, seed):
             'login': rng.choice(['user', 'user', 'user', 'other']),
             'cseed': rng.randrange(1 << 30)})
 
+    # the user-switch shape again, the second request arriving while the
+    # first one's validator is still deciding
+    for i in range(60 if tier == 'quick' else 1200):
+        a, b = rng.sample(['alice', 'bob', 'carol', 'mallory'], 2)
+        first = rng.choice([['password', a, 'own'], ['kbdint', a, 'own'],
+                            ['password', a, 'wrong']])
+        second = rng.choice([['none', b], ['password', b, 'wrong'],
+                             ['password', b, 'own'], ['pk_query', b, 'X'],
+                             ['pk_signed', b, 'A', 'right']])
+        third = [] if rng.random() < 0.6 else \
+            [rng.choice([['password', a, 'own'], ['none', b]])]
+        cases.append({'kind': 'history', 'steps': [first, second] + third,
+                      'pipelined': 'stagger', 'gated': True,
+                      'release': rng.choice(['fifo', 'fifo', 'lifo',
+                                             'random']),
+                      'gate_begin': rng.random() < 0.7,
+                      'exec_order': rng.choice(['fifo', 'lifo']),
+                      'chunk': 'all', 'cseed': rng.randrange(1 << 30)})
+
     npos = 14 if tier == 'quick' else 200
     kinds = ['password', 'ed25519', 'ecdsa', 'rsa', 'cert', 'agent',
              'openssh_key', 'kbdint']
@@ -465,7 +484,23 @@ def _run_history(case, mon, viol):
                     mon['signature_defects'] += 1
                 if step[0] in ('open', 'global'):
                     mon['preauth_probes'] += 1
-                if not case['pipelined']:
+                if case['pipelined'] == 'stagger':
+                    # the next request is sent while this one waits in its
+                    # validator: let it get there (begin_auth gates of all
+                    # but the last request are opened), leave the rest shut
+                    for _ in range(4):
+                        await env.settle()
+                        replies.append((i, await drain(i)))
+                        if i == len(steps) - 1:
+                            break
+                        idx = [k for k, it in enumerate(pending)
+                               if it[0] == 'begin_auth']
+                        if not idx:
+                            break
+                        item = pending.pop(idx[0])
+                        if not item[2].done():
+                            item[2].set_result(None)
+                elif not case['pipelined']:
                     quiet = 0
                     for _ in range(12):
                         await env.settle()
